@@ -8,6 +8,7 @@ import (
 	"os"
 	"os/exec"
 	"path/filepath"
+	"runtime"
 	"strings"
 	"sync"
 	"sync/atomic"
@@ -20,6 +21,7 @@ type SolveResult struct {
 	Status  string  `json:"status"` // unsat (discharged), sat, unknown, timeout, trivial
 	Solver  string  `json:"solver"`
 	Ms      int64   `json:"ms"`
+	MaxMs   int64   `json:"max_query_ms,omitempty"` // slowest single solver query (per-path mode)
 	Paths   int     `json:"paths"`
 	Desc    string  `json:"desc,omitempty"`
 	Pos     string  `json:"pos,omitempty"`
@@ -45,6 +47,15 @@ var solvers = []solverSpec{
 
 func hasLambdaOrQuant(s string) bool { return strings.Contains(s, "(forall ") || strings.Contains(s, "(exists ") }
 
+var procSem = make(chan struct{}, maxInt(2, runtime.NumCPU()))
+
+func maxInt(a, b int) int {
+	if a > b {
+		return a
+	}
+	return b
+}
+
 // runOne runs a single solver on a script; returns status, model text.
 func runOne(ctx context.Context, sp solverSpec, dir, base, script string, timeoutS int) (string, string) {
 	body := script
@@ -57,6 +68,14 @@ func runOne(ctx context.Context, sp solverSpec, dir, base, script string, timeou
 		return "error", err.Error()
 	}
 	argv := sp.argv(f, timeoutS)
+	// one solver process per core: the time limits are wall-clock, and an oversubscribed machine (12
+	// obligations x 4 paths x 3 solvers) turned 2 s queries into timeouts
+	select {
+	case procSem <- struct{}{}:
+		defer func() { <-procSem }()
+	case <-ctx.Done():
+		return "cancelled", ""
+	}
 	cctx, cancel := context.WithTimeout(ctx, time.Duration(timeoutS+2)*time.Second)
 	defer cancel()
 	cmd := exec.CommandContext(cctx, argv[0], argv[1:]...)
@@ -253,6 +272,9 @@ func Discharge(obls []*Oblig, dir string, timeoutS int, par int, unanimous bool)
 			pwg.Wait()
 			for _, pr := range results {
 				total += pr.ms
+				if pr.ms > r.MaxMs {
+					r.MaxMs = pr.ms
+				}
 				if pr.st == "skipped" {
 					continue
 				}
